@@ -209,12 +209,15 @@ const (
 	FForeign
 	FCaseFlip
 	FSpace
+	FRune
 	NumFaults
 )
 
-var faultNames = [...]string{"intact", "truncate", "bitflip", "bytesub", "insert", "delete", "doubled", "pad-over-limit", "empty", "foreign", "caseflip", "space"}
+var faultNames = [...]string{"intact", "truncate", "bitflip", "bytesub", "insert", "delete", "doubled", "pad-over-limit", "empty", "foreign", "caseflip", "space", "rune"}
 
 var interesting = [...]byte{'0', '9', '-', '.', '+', 'v', 'a', 'Z', ' ', '_', 0xa0, 0xc3, 0x00, 0xff, '"', '{', '}', ':', ',', 'M', 'i', 'B', 'k', '\n', 'e', 'E', 'x'}
+
+var runes = [...]string{"\u00e9", "\u00fc", "\u2013", "\u20ac", "\U0001F600", "\u00a0", "\u2028", "\ufeff", "\u0130", "\u212a", "\u00b5"}
 
 // applyFault damages a record on its way from the store to the call.
 func applyFault(t *core.Tape, f int, rec []byte, foreign func() []byte) []byte {
@@ -280,6 +283,17 @@ func applyFault(t *core.Tape, f int, rec []byte, foreign func() []byte) []byte {
 			}
 		}
 		return b
+	case FRune:
+		// a valid multi-byte UTF-8 rune replaces a byte or is inserted (printable non-ASCII,
+		// separators, format characters: what %q, strconv.Quote and range loops treat specially)
+		r := runes[t.Choose(len(runes))]
+		i := t.Choose(n + 1)
+		out := append([]byte(nil), b[:i]...)
+		out = append(out, r...)
+		if i < n && t.Bool(1, 2) {
+			i++
+		}
+		return append(out, b[i:]...)
 	case FSpace:
 		i := t.Choose(n + 1)
 		out := append([]byte(nil), b[:i]...)
